@@ -16,7 +16,7 @@ def templates(tier, seed):
         ts.append(Template(f"law/{name}", t_tr, ("law", name)))
     for name in tmpl.T_INVALID:
         ts.append(Template(f"invalid/{name}", t_tr, ("invalid", name)))
-    for N in ((2,) if tier == "quick" else (1, 2, 3)):
+    for N in ((2,) if tier == "quick" else (1, 2, 3, 4)):
         for name in ("rename(b->z)", "remove(b)", "select([b])", "add(c)", "update(b nullable)", "set_index(b)"):
             ts.append(Template(f"mirror/{name}/N={N}", t_mi, (name, N)))
     return ts
